@@ -89,7 +89,7 @@ package server
 //@   ensures [C17 backup.inv] dbInv(s.db) && noEffect(s.db) && clock >= old(clock)
 //@   ensures [C17 backup.body-is-file] err == nil ==> (uploads == old(uploads) + 1 && lastUploadBody == diskData(disk, s.db.kv.path) && diskHas(disk, s.db.kv.path))
 //@   ensures [C17 backup.fail-no-object] err != nil ==> uploads == old(uploads)
-//@   ensures [C17 backup.one-attempt] (uploadAttempts == old(uploadAttempts) && uploads == old(uploads)) || (uploadAttempts == old(uploadAttempts) + 1 && lastAttemptAt >= old(clock) && lastAttemptAt <= clock)
+//@   ensures [C17 backup.one-attempt] (uploadAttempts == old(uploadAttempts) && uploads == old(uploads) && lastAttemptAt == old(lastAttemptAt)) || (uploadAttempts == old(uploadAttempts) + 1 && lastAttemptAt >= old(clock) && lastAttemptAt <= clock)
 //@   at call PutObject: assert [C17 backup.bounded-5min] hasDeadline(arg_ctx) && deadlineOf(arg_ctx) <= old(clock) + 300000000000 + (clock - old(clock))
 
 //@ func (*Server).periodicBackup(s, ctx)
